@@ -33,3 +33,18 @@ Theorem c05_loop_detector_complete :
     detect_loop (pre ++ w ++ w) = true.
 Proof. exact detect_loop_complete. Qed.
 Print Assumptions c05_loop_detector_complete.
+
+(* BEGIN PINS (tools/repin.py) *)
+From WTP Require Import Gen.GenPins.
+Module Pins.
+Import String.
+(* The models of this property were transcribed from: core.py:detect_expand_template_loop.
+   Gen/GenPins.v holds the digests of these functions in the current source (translate/pins.py: syntax tree without
+   docstrings, comments and layout).  A different digest means that the model is no longer known to describe the
+   code; the check then reports the broken tie and looks for a failing input. *)
+Theorem c05_models_describe_the_current_source :
+  pin_detect_loop = "1fbfb59ad5199fd7"%string.
+Proof. reflexivity. Qed.
+Print Assumptions c05_models_describe_the_current_source.
+End Pins.
+(* END PINS *)
